@@ -1,4 +1,5 @@
 import MmtkModel.Props.C15
+import MmtkModel.Props.C11Req
 /-!
 # C11 — Stop-the-world bracket: stop once, scan each mutator once, resume once
 
@@ -25,8 +26,16 @@ reachable state / transition, all interleavings, all `n ≥ 1`, every stage tabl
   every replayed GC by the monitor (`gc:scan-twice`, `gc:scan-count`).  Exemption that is part of the
   statement: plans with `needs_forward_after_liveness` (MarkCompact) scan every mutator a second time
   in the `SecondRoots` stage — once per root-scanning pass.
-* "a mutator that requested a GC is blocked until that GC has ended" is a property of the binding
-  (`block_for_gc`), checked by the oracle `gc:unblocked-before-resume`.
+* "a mutator that requested a GC is blocked until that GC has ended": the mutator side of the protocol
+  (`MMTK::handle_user_collection_request`, `GCTrigger::request`, `block_for_gc`) is the model
+  `Model/Requesters.lean`; theorems in `Props/C11Req.lean` (`Mmtk.Req.requester_blocked_until_gc_end` for any number
+  of requesters and every interleaving, `requester_returns_after_gc_end_mono` under nothing but the monotonicity of
+  `gcDone`, `blocked_requester_has_pending_gc`, and the `decide`d witness `merged_request_not_blocked` for the seeded
+  variant that blocks only if the call itself set the flag).  The facts about the scheduler model that this
+  relies on are proved here: `sched_gcDone_mono` (`gcDone = resumes` only grows, by one, and only in the completing
+  park), `sched_request_merges` (a request while the flag is set changes nothing: it is merged), and
+  `sched_request_sets_flag`.  Tie to the code: the `reqm` monitor replays the requester events of every run against
+  `Mmtk.Req.step`, and the oracle `gc:requester-not-blocked` evaluates the statement on hx_gc's `gc2` answers.
 -/
 namespace Mmtk.Sched
 
@@ -139,6 +148,40 @@ theorem no_stw_after_resume {c : Cfg} (hwf : c.WF2) {s : State} (h : Reachable c
   cases ho : (s.bkt b).isOpen with
   | false => rfl
   | true => rw [stw_open_means_stopped hwf h b hb hstw ho] at hs; cases hs
+
+/-- `gcDone` (= `resumes`, `one_stop_per_gc`) only grows, and by at most one per transition: the monotonicity the
+requester model's environment (`resumeWorld`) assumes. -/
+theorem sched_gcDone_mono {c : Cfg} (hwf : c.WF2) {s s' : State} {a : Act} (hs : step c s a = some s') :
+    s.gcDone ≤ s'.gcDone ∧ s'.gcDone ≤ s.gcDone + 1 := by
+  by_cases hg : s'.gcDone = s.gcDone
+  · omega
+  · have := (all_closed_at_end hwf.toWF hs hg).2.1
+    omega
+
+/-- along every run `gcDone` is monotone -/
+theorem sched_gcDone_mono_run {c : Cfg} (hwf : c.WF2) : ∀ (run : List Act) (s s' : State), exec c s run = some s' →
+    s.gcDone ≤ s'.gcDone := by
+  intro run
+  induction run with
+  | nil => intro s s' h; simp only [exec] at h; injection h with h; subst h; exact Nat.le_refl _
+  | cons a as ih =>
+    intro s s' h
+    simp only [exec] at h
+    cases ht : step c s a with
+    | none => rw [ht] at h; cases h
+    | some t => rw [ht] at h; exact Nat.le_trans (sched_gcDone_mono hwf ht).1 (ih t s' h)
+
+/-- merging: `GCTrigger::request` while `request_flag` is set is always enabled and changes nothing (in
+particular no second `make_request` becomes due) -/
+theorem sched_request_merges (c : Cfg) (s : State) (h : s.requestFlag = true) : step c s .requestFlag = some s := by
+  simp [step, h]
+
+/-- `GCTrigger::request` with the flag clear sets it and owes exactly one `make_request` -/
+theorem sched_request_sets_flag (c : Cfg) (s : State) (h : s.requestFlag = false) :
+    ∃ s', step c s .requestFlag = some s' ∧ s'.requestFlag = true ∧ s'.pendingMake = s.pendingMake + 1 ∧
+      s'.gcDone = s.gcDone := by
+  refine ⟨{ s with requestFlag := true, pendingMake := s.pendingMake + 1 }, ?_, rfl, rfl, rfl⟩
+  simp [step, h]
 
 open Mmtk.Generated.Stages in
 example : (cfg 8).WF2 := generated_wf2 8 (by decide) false
